@@ -21,6 +21,8 @@ CHECKS = {
          'bounded exhaustive enumeration of rejected (grammar, engine, input) triples against a prefix-viability reference'),
  'C07': ('exploration', '4 C07', 'Every 2..4-subset of a 16-entry terminal menu x priorities x naming schemes x str/bytes x every input up to the bound is lexed by the real basic lexer and compared token by token with a reference lexer written from the documented order + keyword exception; 130-terminal sets natively and through a shim re enforcing the 100-group limit (chunking path); contextual lexer compared with basic (same tree) and with the reference tiling restricted by the reference LALR automaton.',
          'bounded exhaustive enumeration of (terminal set, input) against a reference lexer'),
+ 'C06': ('exploration', '4 C06', 'Tokens: 23 spellings of a newline-matching terminal (kept/ignored) x grammar shapes x 5 parser/lexer configurations x str/bytes x every input over {a,b,newline,blank} up to the bound, every token of parse() and lex() checked against count-newlines coordinates. Tree meta: SHAPE grammars with a newline-bearing filtered terminal x propagate_positions x engines x single-derivation inputs, every node span compared with the span of its reference derivation node.',
+         'bounded exhaustive enumeration against an absolute coordinate function and reference derivation spans'),
 }
 NOT_YET = {}
 def main():
